@@ -794,7 +794,7 @@ func judge(c tcase, g, s string) (bool, string) {
 			if k := strings.Index(at, stepSep); k >= 0 {
 				at = at[:k]
 			}
-			return false, fmt.Sprintf("after call %d of %d a view read back disagrees with the maps or name->value and value->name are not mutually inverse (views_inverse; names in hex below, - is the empty name): %s", strings.Count(g[:strings.Index(g, "inconsistent-views")], stepSep)+1, len(c.Names), at)
+			return false, fmt.Sprintf("after call %d of %d the views read back are not mutually inverse or disagree with the maps (views_inverse; names in hex, - = the empty name): %s", strings.Count(g[:strings.Index(g, "inconsistent-views")], stepSep)+1, len(c.Names), at)
 		}
 		blocks := strings.Split(g, stepSep)
 		specs := strings.Split(s, stepSep)
@@ -829,7 +829,7 @@ func judgeTable(c tcase, g, s string) (bool, string) {
 		return false, "the table of another member of the union changed: " + g
 	}
 	if strings.HasPrefix(g, "inconsistent-views") {
-		return false, "the views of the table disagree with its maps or, for an enumeration, name->value and value->name are not mutually inverse (views_inverse; names in hex below, - is the empty name): " + g
+		return false, "the views of the table are not mutually inverse or disagree with its maps (views_inverse; names in hex, - = the empty name): " + g
 	}
 	if !strings.HasPrefix(g, "errs=") {
 		return false, "Go did not produce a result: " + g
